@@ -53,10 +53,23 @@ def tokenize(src):
 def extract_fn(src, name):
     """source text of `fn name ... { body }` (first match outside tests)"""
     m = None
-    for cand in re.finditer(r'\bfn\s+%s\s*(<[^>]*>)?\s*\(' % re.escape(name), src):
-        # skip the parameter list (it may contain `;` inside array types), then look for `{` before `;`
-        depth = 1
+    for cand in re.finditer(r'\bfn\s+%s\s*(?=[<(])' % re.escape(name), src):
+        # skip the generics (balanced `<…>`), then the parameter list (it may contain `;` inside array types), then look
+        # for `{` before `;`
         k = cand.end()
+        if src[k] == '<':
+            depth = 0
+            while True:
+                depth += (src[k] == '<') - (src[k] == '>' and src[k - 1] != '-')
+                k += 1
+                if depth == 0:
+                    break
+        while src[k].isspace():
+            k += 1
+        if src[k] != '(':
+            continue
+        k += 1
+        depth = 1
         while depth and k < len(src):
             depth += (src[k] == '(') - (src[k] == ')')
             k += 1
@@ -139,11 +152,19 @@ class Parser:
             self.expect('>')
             return t  # Wrapping<u64> is u64 with wrapping operators = our default
         if v == 'Self':
+            if self.accept('::'):
+                return ('assoc', self.next()[1])       # `Self::Item`: resolved from `type Item = …;` of the source file
             return 'Self'
         if v == 'Option' and self.accept('<'):
             t = self.parse_type()
             self.expect('>')
             return ('option', t)
+        if v == 'Result' and self.accept('<'):
+            t = self.parse_type()
+            self.expect(',')
+            e = self.parse_type()
+            self.expect('>')
+            return ('result', t, e)
         return v
 
     # function ----------------------------------------------------------------------------------
@@ -153,13 +174,18 @@ class Parser:
         self.expect('fn')
         name = self.next()[1]
         consts = []
+        typarams = []
         if self.accept('<'):
             depth = 1
+            prev = '<'
             while depth:
-                v = self.next()[1]
+                kind, v = self.next()
                 if v == 'const' and depth == 1:
                     consts.append(self.peek()[1])
-                depth += (v == '<') - (v == '>')
+                elif kind == 'id' and depth == 1 and prev in ('<', ',') and v != 'const':
+                    typarams.append(v)             # a type parameter (`I`, `I: IntoIterator<Item = u64>`)
+                depth += (v == '<') - (v == '>') - 2 * (v == '>>')
+                prev = v
         self.expect('(')
         params = []
         self_mut = False
@@ -178,8 +204,12 @@ class Parser:
         ret = ('tuple', [])
         if self.accept('->'):
             ret = self.parse_type()
+        if self.accept('where'):
+            while self.peek()[1] != '{':
+                self.next()
         body = self.parse_block()
-        return {'name': name, 'params': params, 'ret': ret, 'body': body, 'consts': consts, 'self_mut': self_mut}
+        return {'name': name, 'params': params, 'ret': ret, 'body': body, 'consts': consts, 'self_mut': self_mut,
+                'typarams': typarams}
 
     # statements --------------------------------------------------------------------------------
     def parse_block(self):
@@ -584,6 +614,14 @@ class Emitter:
     def ty(self, t):
         if t == 'Self':
             return self.self_ty
+        if isinstance(t, str) and t in getattr(self, 'typarams', ()):
+            return 'slice'
+        if isinstance(t, tuple) and t and t[0] == 'assoc':
+            if t[1] not in getattr(self, 'assoc', {}):
+                raise TranslateError('associated type %s is not declared uniquely in the file' % t[1])
+            return self.assoc[t[1]]
+        if isinstance(t, tuple) and t and t[0] == 'option':
+            return ('option', self.ty(t[1]))
         if isinstance(t, str) and t in getattr(self, 'structs', {}):
             return self.structs[t]
         return t
@@ -633,6 +671,8 @@ class Emitter:
                       'SHOULD_MASK': ('(decide (BITS > 0) && ((mask BITS) != (2 ^ 64 - 1)))', 'bool')}
                 if p[1] in um:
                     return um[p[1]]
+            if len(p) == 2 and p[0] in getattr(self, 'enums', {}):
+                return self.enum_value(p, [], env)
             if len(p) == 2 and p[0] == 'Ordering' and p[1] in ('Less', 'Equal', 'Greater'):
                 return {'Less': 'Ordering.lt', 'Equal': 'Ordering.eq', 'Greater': 'Ordering.gt'}[p[1]], 'Ordering'
             if len(p) == 2:
@@ -919,6 +959,18 @@ class Emitter:
                 inner = exp[1] if isinstance(exp, tuple) and exp[0] == 'option' else None
                 sa, ta = self.expr(args[0], env, inner)
                 return '(some %s)' % sa, ('option', ta)
+            if name == 'Ok' and len(args) == 1:
+                rt_ = exp if isinstance(exp, tuple) and exp[0] == 'result' else self.inner_rt
+                if not (isinstance(rt_, tuple) and rt_[0] == 'result'):
+                    raise TranslateError('Ok(..) outside a Result context')
+                sa, ta = self.expr(args[0], env, rt_[1])
+                return '(Except.ok %s)' % sa, rt_
+            if name == 'Err' and len(args) == 1:
+                rt_ = exp if isinstance(exp, tuple) and exp[0] == 'result' else self.inner_rt
+                if not (isinstance(rt_, tuple) and rt_[0] == 'result'):
+                    raise TranslateError('Err(..) outside a Result context')
+                sa, _ = self.expr(args[0], env, 'enum')
+                return '(Except.error %s)' % sa, rt_
             sty = self.ty(name)
             if isinstance(sty, tuple) and sty[0] == 'tuple' and (name == 'Self' or name in getattr(self, 'structs', {})):
                 parts = [self.expr(a, env, t)[0] for a, t in zip(args, sty[1])]
@@ -930,6 +982,8 @@ class Emitter:
             if name in self.fns:
                 return self.call_fn(self.fns[name], args, env)
             raise TranslateError('call to untranslated function %s' % name)
+        if len(path) == 2 and path[0] in getattr(self, 'enums', {}):
+            return self.enum_value(path, args, env)
         if path[-2:] == ['cmp', 'min'] and len(args) == 2:
             sa, ta = self.expr(args[0], env, exp)
             sb, _ = self.expr(args[1], env, ta)
@@ -958,6 +1012,18 @@ class Emitter:
         if key in self.fns:
             return self.call_fn(self.fns[key], args, env)
         raise TranslateError('unsupported call %s' % '::'.join(path))
+
+    def enum_value(self, path, args, env):
+        """`Enum::Variant` / `Enum::Variant(a[, b])` of a field-less or word-carrying error enum: (index, a, b)"""
+        variants = self.enums[path[0]]
+        if path[1] not in [v for v, _ in variants]:
+            raise TranslateError('unknown variant %s::%s' % tuple(path))
+        idx = [v for v, _ in variants].index(path[1])
+        ar = variants[idx][1]
+        if ar != len(args) or ar > 2:
+            raise TranslateError('variant %s::%s takes %d fields' % (path[0], path[1], ar))
+        fs = [self.expr(a, env, 'u64')[0] for a in args] + ['0'] * (2 - len(args))
+        return '(%d, %s, %s)' % (idx, fs[0], fs[1]), 'enum'
 
     def call_fn(self, sig, args, env):
         ln, pts, rt = sig[0], sig[1], sig[2]
@@ -2037,11 +2103,32 @@ class Emitter:
             return [('assign', ('path', [rest]), ('concat', ('drop', ('path', [v]), hi), ('path', [rest]))),
                     ('assign', ('path', [v]), ('index', ('path', [v]), ('rangeto', hi)))]
 
+        iters = {}
+
         def stmts(lst):
             out = []
             lst = list(lst)
             while lst:
                 st = lst.pop(0)
+                if (st[0] == 'let' and st[1][0] == 'pid' and isinstance(st[3], tuple) and st[3][0] == 'mcall'
+                        and st[3][2] == 'into_iter' and not st[3][3] and st[3][1][0] == 'path' and len(st[3][1][1]) == 1):
+                    # `let mut iter = digits.into_iter();`: the iterator is the sequence plus a position
+                    pos = st[1][1] + '_pos'
+                    iters[st[1][1]] = (st[3][1], pos)
+                    out.append(('let', ('pid', pos), 'usize', ('lit', 0, 'usize')))
+                    continue
+                if st[0] == 'foreach' and isinstance(st[1], str):
+                    it = st[2]
+                    if it[0] == 'mcall' and it[2] == 'by_ref' and not it[3]:
+                        it = it[1]
+                    if it[0] == 'path' and len(it[1]) == 1 and it[1][0] in iters:
+                        # `for x in iter.by_ref()` / `for x in iter`: take the next element, advance, run the body
+                        seq, pos = iters[it[1][0]]
+                        pv = ('path', [pos])
+                        body = [('let', ('pid', st[1]), None, ('index', seq, pv)),
+                                ('assign', pv, ('bin', '+', pv, ('lit', 1, 'usize')))] + stmts(st[3][1])
+                        out.append(('while', ('bin', '<', pv, ('mcall', seq, 'len', [])), ('block', body)))
+                        continue
                 if st[0] == 'let' and st[1][0] == 'pid' and st[1][1] in mutparams:
                     v = st[1][1]
                     hi = prefix_of(st[3], v)
@@ -2155,6 +2242,8 @@ class Emitter:
             return ('tuple', [self.ty_deep(x) for x in t[1]])
         if isinstance(t, tuple) and t[0] == 'option':
             return ('option', self.ty_deep(t[1]))
+        if isinstance(t, tuple) and t[0] == 'result':
+            return ('result', self.ty_deep(t[1]), t[2])
         return t
 
     def lean_ty(self, t):
@@ -2164,6 +2253,9 @@ class Emitter:
             return 'Ordering'
         if isinstance(t, tuple) and t[0] == 'option':
             return 'Option (%s)' % self.lean_ty(t[1])
+        if isinstance(t, tuple) and t[0] == 'result':
+            # an error value is (variant index in the enum's declaration order, its fields padded with 0)
+            return 'Except (Nat × Nat × Nat) (%s)' % self.lean_ty(t[1])
         if t == 'uint' and getattr(self, 'uint_mode', False) == 'value':
             return 'Nat'
         if t in ('uint', 'slice', 'mutslice') or (isinstance(t, tuple) and t[0] == 'array'):
@@ -2237,11 +2329,48 @@ def translate(items, namespace='Ruint.Gen', imports=('Ruint.Gen.Prelude',), fns=
             continue
         try:
             src = open(it['file']).read()
-            text = extract_fn(src, it['fn'])
+            if it.get('after'):
+                # several functions of this name in the file: search after the named anchor (the `impl` header)
+                if it['after'] not in src:
+                    raise TranslateError('anchor not found: %s' % it['after'])
+                text = extract_fn(src[src.index(it['after']):], it['fn'])
+            else:
+                text = extract_fn(src, it['fn'])
             fn = Parser(tokenize(text)).parse_fn()
             em = Emitter(fns, it.get('self_ty'), structs=it.get('structs'), gconsts=it.get('gconsts'), self_name=it.get('self_name'))
             em.uint_mode = it.get('uint') or False     # True: limb lists; 'value': a Uint is its numeric value
             em.externs = it.get('externs', {})
+            # field-less / word-carrying enums declared in the same file (error types)
+            em.enums = {}
+            for m_ in re.finditer(r'\benum\s+(\w+)\s*\{(.*?)\n\}', re.sub(r'//[^\n]*', '', src), re.S):
+                vs = []
+                for v_ in re.finditer(r'(?:#\[[^\]]*\]\s*)*(\w+)\s*(\(([^)]*)\))?\s*,', m_.group(2)):
+                    vs.append((v_.group(1), len([x for x in (v_.group(3) or '').split(',') if x.strip()])))
+                em.enums[m_.group(1)] = vs
+            # generic parameters `I: IntoIterator<Item = u64>` are digit sequences
+            em.typarams = list(fn.get('typarams', []))
+            em.assoc = {}
+            for an_ in set(re.findall(r'\btype\s+(\w+)\s*=', src)):
+                vals_ = set(re.findall(r'\btype\s+%s\s*=\s*([^;]+);' % an_, src))
+                if len(vals_) == 1 and list(vals_)[0].strip() in WIDTH:
+                    em.assoc[an_] = list(vals_)[0].strip()
+            if it.get('self_fields'):
+                # a struct `self` with named fields: each field becomes a parameter (`self.f` -> `self_f`)
+                sf = it['self_fields']
+                fn = dict(fn)
+                fn['params'] = [x for n_, t_ in fn['params'] for x in
+                                ([('self_' + f_, ft_) for f_, ft_ in sf] if n_ == 'self' else [(n_, t_)])]
+
+                def selfsub(node):
+                    if isinstance(node, list):
+                        return [selfsub(x) for x in node]
+                    if isinstance(node, tuple):
+                        if node and node[0] == 'fieldname' and node[1] == ('path', ['self']) and node[2] in dict(sf):
+                            return ('path', ['self_' + node[2]])
+                        return tuple(selfsub(x) for x in node)
+                    return node
+                fn['body'] = selfsub(fn['body'])
+                fn['self_mut'] = False
             code = em.function(fn, it['lean'])
             key = it.get('key', it['fn'])
             mutidx = [i for i, (_, t) in enumerate(fn['params']) if em.ty(t) == 'mutslice']
@@ -2405,6 +2534,16 @@ def uint_div_items(repo):
     return out
 
 
+def radix_items(repo):
+    """src/base_convert.rs: digit-sequence conversions (limb mode; errors are (variant index, fields))"""
+    f = repo + '/src/base_convert.rs'
+    u = {'file': f, 'self_ty': 'uint', 'uint': True, 'group': 'radix', 'externs': UINT_EXTERNS}
+    return [dict(u, fn='from_base_be', lean='uint_from_base_be', key='Uint::from_base_be'),
+            dict(u, fn='from_base_le', lean='uint_from_base_le', key='Uint::from_base_le'),
+            {'file': f, 'fn': 'next', 'lean': 'spigot_next', 'key': 'SpigotLittle::next', 'group': 'radix',
+             'after': 'Iterator for SpigotLittle', 'self_fields': [('base', 'u64'), ('limbs', 'mutslice')]}]
+
+
 GROUPS = [('core', 'Words', ('Ruint.Gen.Prelude',)),
           ('kernels', 'WordsKernels', ('Ruint.Gen.Words',)),
           ('uint', 'WordsUint', ('Ruint.Gen.Words', 'Ruint.Gen.WordsKernels', 'Ruint.Base', 'Ruint.Model.MulKernels')),
@@ -2415,6 +2554,7 @@ GROUPS = [('core', 'Words', ('Ruint.Gen.Prelude',)),
           ('divloops', 'WordsDivLoops', ('Ruint.Gen.WordsDiv',)),
           ('knuth', 'WordsKnuth', ('Ruint.Gen.WordsDivLoops', 'Ruint.Gen.WordsKernels')),
           ('uintdiv', 'WordsUintDiv', ('Ruint.Gen.WordsUint', 'Ruint.Gen.WordsKnuth')),
+          ('radix', 'WordsRadix', ('Ruint.Gen.WordsUint',)),
           ('value', 'WordsValue', ('Ruint.Gen.Prelude', 'Ruint.Model.Modular'))]
 
 
@@ -2430,6 +2570,7 @@ def translate_all(repo):
     items += div_loop_items(repo)
     items += knuth_items(repo)
     items += uint_div_items(repo)
+    items += radix_items(repo)
     items += value_items(repo)
     try:
         items += lehmer_items(repo)
